@@ -208,15 +208,15 @@ def build_queue(ctx, db, rid):
         ctx.ob(rid, f, f['key'], bad is None, 'requests are moved one by one to the head of the FIFO, link read first' + ('' if not bad else ' -- ' + bad[0]), desc=bad[0] if bad else None,
                trace=fmt_trace(bad[1]) if bad else None)
     found = who(db, lambda f, e: e.k == 'call' and norm(e.get('callee')) == 'cocls::mutex::build_queue')
-    check_who(ctx, rid, found, {'cocls::mutex::unlock', 'cocls::mutex::subscribe'}, 'call of build_queue')
+    check_who(ctx, rid, found, {'cocls::mutex::unlock', 'cocls::mutex::subscribe'}, 'call of build_queue', db=db)
 
 
 def private_fifo(ctx, db, rid):
     ctx.rule(rid, 'WHO', 'the owner-private FIFO (_queue) is accessed only by unlock, build_queue and the destructor\'s assertion', floor=2)
     found = who(db, lambda f, e: e.k in ('read', 'write') and norm(e.get('field') or '') == Q and not e.get('init'))
-    check_who(ctx, rid, found, {'cocls::mutex::unlock', 'cocls::mutex::build_queue', 'cocls::mutex::~mutex'}, 'access to mutex::_queue')
+    check_who(ctx, rid, found, {'cocls::mutex::unlock', 'cocls::mutex::build_queue', 'cocls::mutex::~mutex'}, 'access to mutex::_queue', db=db)
     found = who(db, lambda f, e: e.k == 'call' and atomic.is_atomic_call(e) and norm(e.get('field')) == REQ and atomic.opname(e) not in ('conv', 'load'))
-    check_who(ctx, rid, found, {'cocls::mutex::unlock', 'cocls::mutex::build_queue', 'cocls::mutex::ready'}, 'atomic write of mutex::_requests')
+    check_who(ctx, rid, found, {'cocls::mutex::unlock', 'cocls::mutex::build_queue', 'cocls::mutex::ready'}, 'atomic write of mutex::_requests', db=db)
 
 
 def release_once(ctx, db, rid):
